@@ -269,10 +269,13 @@ class _AsyncioReadWriteLock(ReadWriteLock):
                     raise
 
     async def _release_read(self) -> None:
-        async with self._read_lock:
-            self._counter -= 1
-            if self._counter == 0:
-                self._write_lock.release()
+        # Must not suspend: a reader cancelled while it waits for the read
+        # mutex here would stay counted and the write lock would never be
+        # released. The event loop does not interleave tasks between
+        # suspension points, so the mutex is not needed to leave.
+        self._counter -= 1
+        if self._counter == 0:
+            self._write_lock.release()
 
     @asynccontextmanager
     async def read_lock(self) -> AsyncIterator[None]:
